@@ -333,4 +333,6 @@ func genParse(g *Gen) {
 			g.Count("history x sensitive text")
 		}
 	}
+	// the history dimension proper: unfinished / failed / complete earlier texts x reset routes (gen_parsehist.go)
+	genParseHist(g, p)
 }
